@@ -27,7 +27,7 @@ class FnSpec:
         self.name = name
         # semantics-preserving rewrites are on by default, so that a harmless-looking edit that introduces such a construct
         # is still verified (and fails its contract) instead of making the unit undecided; `rules` overrides
-        self.rules = ["E4", "E5", "E9", "E10", "E11", "E12", "E13"]
+        self.rules = ["E4", "E5", "E9", "E10", "E11", "E12", "E13", "E15"]
         self.ret = None
         self.spec = []          # requires/ensures/decreases lines
         self.loops = {}         # k -> {"iter": str|None, "lines": [...]}
